@@ -808,7 +808,7 @@ fn py_session(run: &mut Run, idx: usize, w: &World, rng: &mut Rng) {
     while calls.len() < n {
         let (mut text, _) = gen_analyse_text(rng, &c, false);
         // the replay of a Python session uses the list model: keep accepted texts moderate (rejected ones cost nothing)
-        if text.len() <= 49149 && text.chars().count() > 1500 { text = text.chars().take(1500).collect(); }
+        if text.len() <= 49149 && text.chars().count() > 300 { text = text.chars().take(300).collect(); }
         let ov = if rng.chance(2, 5) { Some(rng.below(3)) } else { None };
         let eff = ov.unwrap_or(create_mode);
         let fresh = match fresh_facts(dic, &text, mode_of(eff), None) { Some(f) => f, None => continue };
